@@ -197,6 +197,17 @@ class C18(object):
         d, rows, ftab, H, X = self.setup(case)
         n = case['n']
         r.nontrivial = n >= 3
+        # a sibling with the same probability vector on a different support is profiled first (a result cached
+        # by probabilities alone would leak into the next call)
+        import dit as _dit
+        sib_outs = [tuple((x + 1) % 2 if i == 0 else x for i, x in enumerate(o)) if o[0] in (0, 1) else tuple(o)
+                    for o in [gen.from_py(o, case['klass']) for o in d.outcomes]]
+        sib_outs = [tuple([o[-1]] * len(o)) if k == 0 else o for k, o in enumerate(sib_outs)]
+        if len(set(sib_outs)) == len(sib_outs):
+            try:
+                ComplexityProfile(_dit.Distribution(sib_outs, [float(v) for v in d.pmf]))
+            except Exception:  # noqa
+                pass
         cp = ComplexityProfile(d).profile
         if sorted(cp) != list(range(1, n + 1)):
             r.oracle_fail = 'profile scales %s' % sorted(cp)
